@@ -160,9 +160,42 @@ let ext_line ws = match ws with
   | ["iap"; c; v] -> if int_of_string v < 0 then "ERR build" else Printf.sprintf "critical=%s skip=%s" c v
   | _ -> "ERR bad-op"
 
+
+(* wave 2: one extension builder at a given content length *)
+let ext_oid = function
+  | "cp" -> "551d20" | "pm" -> "551d21" | "san" -> "551d11" | "ian" -> "551d12" | "sda" -> "551d09" | "fcrl" -> "551d2e"
+  | "ski" -> "551d0e" | "aki" -> "551d23" | _ -> ""
+let extlen_line kind crit hex =
+  let c = bx hex and cr = int_of_string crit in
+  let n = List.length c in
+  let seqkind = List.mem kind ["cp"; "pm"; "san"; "ian"; "sda"; "fcrl"] in
+  let build_ok = (match kind with
+    | "ski" -> n >= 16 && n <= 64
+    | "aki" -> n >= 1 && n <= 480
+    | "crldp" | "aia" -> n >= 1 && n <= 200
+    | "nc" -> n >= 1 && n <= 500
+    | _ -> seqkind && n >= 1) in
+  if not build_ok then "build=ERR" else begin
+    let oidtlv = tlv (ni 6) (bx (ext_oid kind)) in
+    let ext = if seqkind then Some (ext_ex_emit oidtlv (zi cr) c)
+      else if kind = "ski" then Some (ext_emit oidtlv (zi cr) (tlv (ni 4) c))
+      else if kind = "aki" then Some (ext_emit oidtlv (zi cr) (tlv (ni 48) (tlv (ni 128) c)))
+      else None in
+    let parses = (match ext with
+      | Some e -> (match ext_from_der e with Some ([Some (_, _); _; Some (_, _)], []) -> true | _ -> false)
+      | None -> true) in
+    if not parses then "MODEL-ext-does-not-parse" else
+    let check = (match kind with
+      | "pm" -> cr = 1 | "ian" | "sda" | "ski" | "aki" | "aia" -> cr <> 1 | _ -> true) in
+    Printf.sprintf "build=1 ext=%s get=1 critical=%d inner=1 cert=1 exts_rt=1 ku_after=1 verify=1 check=%d"
+      (match ext with Some e -> hx e | None -> "unmodelled") cr (if check then 1 else 0)
+  end
+
 let handle ws = match ws with
   | ["keys"] -> String.concat " " (Array.to_list (Array.map hx keys))
   | "cert" :: r -> cert_line r
+  | "certck" :: r -> let l = cert_line r in if String.length l >= 3 && String.sub l 0 3 = "ERR" then l else l ^ " check=1"
+  | ["extlen"; kind; crit; hex] -> extlen_line kind crit hex
   | "req" :: r -> req_line r
   | "crl" :: r -> crl_line r
   | ["crlfind"; entries; serial] ->
